@@ -9,11 +9,13 @@ import util
 from framework import pmap
 
 ID = 'C11'
-LEAN_MODULES = ['Pfst.Props.C11', 'Pfst.Props.C04']
-LEAN_DEPS = ['Pfst.Offset', 'Pfst.OffsetLemmas', 'Pfst.Text', 'Pfst.TextLemmas']
+LEAN_MODULES = ['Pfst.Props.C11', 'Pfst.Props.C11b', 'Pfst.Props.C04']
+LEAN_DEPS = ['Pfst.Offset', 'Pfst.OffsetLemmas', 'Pfst.Text', 'Pfst.TextLemmas', 'Pfst.Clip']
 THEOREMS = [
     'Pfst.C11.break_eq_full', 'Pfst.C11.before_fixed', 'Pfst.C11.after_shift', 'Pfst.C11.container_grows',
     'Pfst.C11.params_bytes', 'Pfst.C11.offsetNode_table',
+    # coordinate spellings (clip_src_loc): negative / 'end' spellings denote the same location, results are inside the source
+    'Pfst.C11b.clip_bounds', 'Pfst.C11b.clip_canonical', 'Pfst.C11b.clip_spellings', 'Pfst.C11b.clip_refuses_iff',
     # text level (shared text layer, Pfst/Props/C04.lean): what _put_src does to the lines, and that spans shifted by
     # exactly (dln, dcol) denote the same text — the byte dcol is the one _params_offset computes
     'Pfst.C04.putSrc_flat', 'Pfst.C04.getSrc_before', 'Pfst.C04.getSrc_after', 'Pfst.C04.getSrc_container', 'Pfst.C04.dcol_bytes',
@@ -23,8 +25,13 @@ RULE = ('(a) FST._offset called directly on real trees (syntax-ordered children,
         'exclude/self_ variants, compared position-for-position with the Lean model; (b) put_src(action="offset") on '
         'every kind of inter-token gap of corpus programs with single- and multi-line trivia replacements, called on '
         'the innermost strictly containing node, compared with the Lean composite model AND with ast.parse of the new '
-        'source. distinct = distinct (tree, parameters) inputs; non-trivial = at least one position changes')
-TRUSTED = ['modelled: fst_core._offset, _params_offset, the offset branch of FST.put_src; _put_src is modelled in Pfst/Text.lean',
+        'source; the location is passed in every spelling clip_src_loc accepts (plain, negative from the end of the source / '
+        'of the line, "end"); a list of special sources (calls and class bases with interleaved starred / keyword '
+        'arguments, decorators, multi-byte text) gets EVERY gap edited in every run; (c) clip_src_loc itself vs the Lean '
+        'model on random and boundary coordinates. distinct = distinct (tree, parameters) inputs; non-trivial = at least '
+        'one position changes')
+TRUSTED = ['modelled: fst_core._offset, _params_offset, the offset branch of FST.put_src, fst_misc.clip_src_loc (Pfst/Clip.lean); _put_src is modelled in Pfst/Text.lean',
+           'the order of children (syntax_ordered_children) is an INPUT of the offset model taken from pfst; that it is source order is C14\'s theorem and is judged here per case by ast.parse of the edited source',
            'not modelled: cache flushing side effect of _offset (see C02), the f-string debug-text maintenance in _Modifying']
 ASSUMPTIONS = ['the hypothesis `geo` of break_eq_full is evaluated by the Lean driver on every tree used (reported as geo_false)',
                'one put_src call is one atomic step']
@@ -237,6 +244,41 @@ def _innermost(root, ln, col, end_ln, end_col):
     return best[0] if best else root
 
 
+def _spell(rng, lines, ln, col, end_ln, end_col):
+    """the same location in one of the spellings clip_src_loc accepts"""
+    if rng.random() < 0.4:
+        return [ln, col, end_ln, end_col]
+    n = len(lines)
+
+    def sp_ln(x):
+        r = rng.random()
+        return x - n if r < 0.5 else ('end' if x == n - 1 and r < 0.8 else x)
+
+    def sp_col(x, line):
+        r = rng.random()
+        if x == len(line):
+            return 'end' if r < 0.7 else x
+        return x - len(line) if r < 0.7 else x
+
+    return [sp_ln(ln), sp_col(col, lines[ln]), sp_ln(end_ln), sp_col(end_col, lines[end_ln])]
+
+
+# sources whose EVERY gap is edited in every run (shapes the random corpus rarely produces)
+SPECIAL = [
+    'f(a=1, *b, c=2, d=3, e=4)\n', 'f(x, k=1, *a, j=2, *b, *c, *d)\n', 'f(k=1, *a, *b, *c, **kw)\n', 'f(*a, k=1, *b, j=2, **c)\n',
+    'class C(a, m=1, *b, n=2, o=3, p=4): pass\n', 'class C(m=1, *a, *b, *c): pass\n',
+    'r = f("é", k="ü", *a, j=2, *b, l=3, m=4)\n', 'f(\n    a=1,\n    *b,\n    c=2,  # é\n    d=3,\n    e=4,\n)\n',
+    '@d(a=1, *b, c=2, d=3)\n@e\ndef f(p, /, q=1, *r, s=2, **t): pass\n', 'x = {**a, b: c, **d, "é": é}\n',
+    'x = [i for i in f(k=1, *a, *b, *c) if i if "é"]\n', 'match s:\n    case C(a, k=b, l=c) | {1: d, **e} | [f, *g]: pass\n',
+    'with a as b, c as d, (e): pass\n', 'def f[T, *U, **P](a: "é" = 1, *b: c, d: e = 2, **g) -> h: pass\n',
+    'x = a if b else c if d else "é" if é else f\n', 'x = a < b <= c != "é" in d not in e is f\n',
+    'try:\n    pass\nexcept (A, B) as e:\n    pass\nexcept* C:\n    pass\n' if False else 'try:\n    pass\nexcept (A, B) as e:\n    pass\nelse:\n    pass\nfinally:\n    pass\n',
+    'x = f"{a!r:>{w}} é {b=}" "é" f"{c}"\n', 'lambda a, /, b=1, *c, d=2, **e: (a, b)\n', 'x = a[b:c:d, e, ..., *f]\n',
+    'from m import (a as b, c as d, e)\nimport p.q as r, s\nglobal g, h\n', 'async def f():\n    async with a as b: await c\n    async for i in j: yield i\n',
+    'type A[T: int, *U, **P] = dict[T, U]\n', 'del a, b[c], d.e\nassert a, "é"\nraise E from c\n',
+]
+
+
 def _gap_case(arg):
     src, seed, per = arg
     rng = random.Random(seed)
@@ -275,10 +317,11 @@ def _gap_case(arg):
         a = [len(put_lines), ln, end_ln, util.byte_len(lines0[end_ln][:end_col]), util.byte_len(put_lines[-1]),
              util.byte_len(lines0[ln][:col])]
         case = {'f': 'C11.put_src_offset', 'tree': tree, 'self': ids[id(node.a)], 'a': a}
+        call = _spell(rng, lines0, ln, col, end_ln, end_col)
         try:
-            ret = node.put_src(new, ln, col, end_ln, end_col, 'offset')
+            ret = node.put_src(new, *call, 'offset')
         except Exception as e:
-            out.append({'case': case, 'impl': {'exc': type(e).__name__ + ': ' + str(e)[:80]}, 'src': src,
+            out.append({'case': case, 'impl': {'exc': type(e).__name__ + ': ' + str(e)[:80]}, 'src': src, 'call': call,
                         'edit': [new, ln, col, end_ln, end_col], 'kind': node.a.__class__.__name__, 'oracle': 'raised'})
             continue
         after = _pos_by_id(root.a, ids)
@@ -303,7 +346,8 @@ def _gap_case(arg):
             d2 = util.dump_pos(new_tree)
             if d1 != d2:
                 oracle = 'tree differs from a from-scratch parse: ' + util.first_diff(d1, d2)
-        out.append({'case': case, 'impl': impl, 'src': src, 'edit': [new, ln, col, end_ln, end_col],
+        out.append({'case': case, 'impl': impl, 'src': src, 'edit': [new, ln, col, end_ln, end_col], 'call': call,
+                    'spelling': 'plain' if call == [ln, col, end_ln, end_col] else 'respelled',
                     'kind': node.a.__class__.__name__, 'oracle': oracle, 'multiline': '\n' in new, 'in_fstring': in_f,
                     'extra_edit': extra_edit,
                     'nonascii_before': not lines0[end_ln][:end_col].isascii()})
@@ -332,6 +376,58 @@ def correspondence(ctx):
     _compare_pos(ctx, 'offset(direct) vs Pfst.Offset.offsetTree/offsetKids', cases, impls, nt, geo_false)
     # (b) put_src offset on gaps: run in sweep() together with the CPython oracle (same executions)
     ctx.notes['geo_false_direct'] = geo_false[0]
+    # (c) clip_src_loc vs Pfst.Clip.clip
+    rng = random.Random(ctx.rng.random())
+    ccases = []
+    for _ in range(4000 if q else 40000):
+        lens = [rng.choice([0, 0, 1, 2, 3, 5, 9]) for _ in range(rng.randint(1, 5))]
+        n = len(lens)
+
+        def co(hi):
+            r = rng.random()
+            return 'end' if r < 0.12 else rng.randint(-hi - 3, hi + 3)
+        ccases.append([lens, [co(n), co(10), co(n), co(10)]])
+    impl = pmap(_clip_impl, ccases)
+    try:
+        outs = ctx.lean([{'f': 'C11.clip', 'lens': c[0], 'c': c[1]} for c in ccases])
+    except Exception as e:
+        ctx.brk('correspondence', 'clip_src_loc vs Pfst.Clip.clip', f'driver error: {e}')
+        outs = []
+    bad = []
+    for c, r, m in zip(ccases, impl, outs):
+        ctx.corr_cases += 1
+        m = m.get('out', m)
+        ctx.count(('clip', str(c)), 'ok' in m and m['ok'] != c[1])
+        ctx.tally('clip_outcome', 'ok' if 'ok' in m else m.get('refused', 'err'))
+        if _clip_differs(r, m):
+            bad.append((c, r, m))
+    ctx.dist['correspondence_cases']['clip_src_loc vs Pfst.Clip.clip'] = len(ccases)
+    if bad:
+        ctx.corr_disagreements.append({'corr': 'clip_src_loc vs Pfst.Clip.clip', 'case': bad[0][0], 'impl': bad[0][1], 'model': bad[0][2]})
+        ctx.brk('correspondence', 'clip_src_loc vs Pfst.Clip.clip', f'{len(bad)}/{len(ccases)} cases differ; first: {bad[0]}')
+        ctx.hints.append(('clip', bad[0][0]))
+
+
+def _clip_impl(c):
+    from fst import FST
+    from fst.fst_misc import clip_src_loc
+    lens, co = c
+    root = FST('\n'.join('x' * k for k in lens), 'exec') if False else None
+    class _R:                       # clip_src_loc only reads self.root._lines
+        pass
+    r = _R()
+    r.root = r
+    r._lines = ['x' * k for k in lens]
+    try:
+        return {'ok': list(clip_src_loc(r, *co))}
+    except IndexError as e:
+        return {'refused': 'line' if 'line cannot' in str(e) else 'col'}
+    except Exception as e:
+        return {'exc': repr(e)[:100]}
+
+
+def _clip_differs(r, m):
+    return r != m
 
 
 def _compare_pos(ctx, name, cases, impls, nt, geo_false):
@@ -369,8 +465,15 @@ def sweep(ctx):
     the new source (the property itself, per case)."""
     q = ctx.quick
     progs = _programs(ctx, 250 if q else 2500, 20 if q else 300)
-    res = pmap(_gap_case, [(p, ctx.rng.randrange(1 << 30), 14 if q else 40) for p in progs])
+    jobs = [(p, ctx.rng.randrange(1 << 30), 14 if q else 40) for p in progs]
+    for rep in range(2 if q else 8):          # every gap of every special source, with different replacements / spellings
+        jobs += [(p, 7919 * rep + i, 10 ** 6) for i, p in enumerate(SPECIAL)]
+    res = pmap(_gap_case, jobs)
     items = [it for lst in res for it in lst]
+    ctx.tally('spelling', 'x')
+    ctx.dist['spelling'] = {}
+    for it in items:
+        ctx.dist['spelling'][it.get('spelling', 'raised')] = ctx.dist['spelling'].get(it.get('spelling', 'raised'), 0) + 1
     ctx.notes['fstring_field_edits_with_extra_pfst_normalisation'] = sum(1 for it in items if it.get('extra_edit'))
     cases = [it['case'] for it in items if not it.get('extra_edit')]
     impls = [it['impl'] for it in items if not it.get('extra_edit')]
@@ -386,7 +489,7 @@ def sweep(ctx):
         if it['oracle']:
             ctx.fail(f'C11|put_src-offset|{it["kind"]}|{"raised" if it["oracle"] == "raised" else "tree!=parse"}',
                      f'put_src(action="offset") on {it["kind"]}: {it["oracle"]}',
-                     {'src': it['src'], 'edit': it['edit'], 'self_kind': it['kind']})
+                     {'src': it['src'], 'edit': it['edit'], 'call': it.get('call'), 'self_kind': it['kind']})
     if items:
         ctx.sample({'put_src_offset': {'src': items[0]['src'][:200], 'edit': items[0]['edit'], 'self': items[0]['kind']}})
     ctx.notes['gap_edits'] = len(items)
@@ -403,7 +506,7 @@ def search(ctx):
             if it['oracle']:
                 ctx.fail(f'C11|put_src-offset|{it["kind"]}|{"raised" if it["oracle"] == "raised" else "tree!=parse"}',
                          f'put_src(action="offset") on {it["kind"]}: {it["oracle"]}',
-                         {'src': it['src'], 'edit': it['edit'], 'self_kind': it['kind']})
+                         {'src': it['src'], 'edit': it['edit'], 'call': it.get('call'), 'self_kind': it['kind']})
     ctx.notes['search_edits'] = n
 
 
@@ -412,11 +515,17 @@ def replay(ctx, data):
     if not w:
         print('replay file names a broken obligation, not an input:', [b for b in data.get('broken', [])][:3])
         return
+    if 'clip' in w:
+        r = _clip_impl(w['clip'])
+        m = ctx.lean([{'f': 'C11.clip', 'lens': w['clip'][0], 'c': w['clip'][1]}])[0]
+        if _clip_differs(r, m.get('out', m)):
+            ctx.fail('replay', f'clip_src_loc {r} differs from the model {m}', w)
+        return
     src, (new, ln, col, end_ln, end_col) = w['src'], w['edit']
     root = _mk_fst(src)
     node = _innermost(root, ln, col, end_ln, end_col)
     try:
-        node.put_src(new, ln, col, end_ln, end_col, 'offset')
+        node.put_src(new, *w.get('call', [ln, col, end_ln, end_col]), 'offset')
     except Exception as e:
         ctx.fail('replay', f'raised {e!r}', w)
         return
